@@ -373,6 +373,14 @@ def gen_net(rng, idx, profile):
             new = b.unary("LEAKY_RELU", cur)
             if rng.random() < 0.4:
                 _same_quant(b, new, cur)
+            # a NEGATIVE alpha on every third-or-so operator (own generator, a function of (index, step): the random stream of the
+            # networks is what it was). int8 / uint8: table lookup, must stay bit-exact. int16: lowered to MIN, int32 MUL by the
+            # negative quantised multiplier, RELU, ADD (C06 finding int16-lrelu-negative-alpha-negative-ofm-scale) - or, on a tree
+            # with repair C16-20 (constraint_alpha_valid), left on the CPU.
+            r2 = random.Random((idx * 7919 + step) * 31 + 5)
+            if r2.random() < 0.35:
+                b.net.ops[-1].opts = ("LeakyReluOptions", dict(Alpha=float(r2.choice([-0.5, -2.0, -0.125, -1.0, -0.999, -8.0]))))
+                b.net.desc.append(f"alpha={b.net.ops[-1].opts[1]['Alpha']}")
         elif kind == "quantize":
             new = b.quantize(cur)
         elif kind == "sqdiff" and xt.dtype != "uint8":
@@ -685,7 +693,8 @@ def corpus_net(rng, name):
         z = b.fm([1, 1, 1, 12], "int8", scale=0.0199, zp=-20)
         b.net.ops.append(netgen.Op("MEAN", [x, ax], [z], ("ReducerOptions", dict(KeepDims=True))))
         return b.finish([z])
-    b = make_builder(rng, name, "int16" if name in ("known_fc_int16", "known_lrelu16_relu6", "known_lrelu16_reshape", "known_lrelu16_rounding")
+    b = make_builder(rng, name, "int16" if name in ("known_fc_int16", "known_lrelu16_relu6", "known_lrelu16_reshape", "known_lrelu16_rounding",
+                                                   "known_lrelu16_negative_alpha")
                      else ("uint8" if name == "known_dilation3_asym" else "int8"))
     if name == "known_fc_int16":
         x = b.input([1, 2, 1, 16], scale=0.0011566292960196733, zp=0)
@@ -695,6 +704,8 @@ def corpus_net(rng, name):
         x = b.input([1, 9, 4, 8], scale=0.025, zp=0)
     elif name == "known_lrelu16_rounding":
         x = b.input([1, 2, 4, 4], scale=0.01, zp=0)
+    elif name == "known_lrelu16_negative_alpha":
+        x = b.input([1, 8, 2, 8], scale=0.01, zp=0)
     else:
       x = b.input({"known_pad_conv_reshape": [1, 4, 9, 4], "known_lut_reshape": [1, 3, 9, 8],
                  "known_cascade_stale_row": [1, 10, 8, 8], "known_slice_strided_conv": [1, 6, 6, 4],
@@ -791,6 +802,12 @@ def corpus_net(rng, name):
         # above the alpha branch (Props/C01Rewrites.lrelu_mulmax_id_witness)
         z = b.fm([1, 2, 4, 4], "int16", scale=0.02, zp=0)
         b.net.ops.append(netgen.Op("LEAKY_RELU", [x], [z], ("LeakyReluOptions", dict(Alpha=0.998))))
+    elif name == "known_lrelu16_negative_alpha":
+        # int16 LEAKY_RELU with a negative alpha (C06 thorough, network lut 0/186): convert_lrelu_to_mul_max gave the alpha constant
+        # the scale -2.0, the MUL got a negative OFM multiplier that the emitter masked into the unsigned OFM_SCALE register.
+        # Repaired by constraint_alpha_valid (the operator stays on the CPU); on the repaired tree this is a regression test.
+        z = b.fm([1, 8, 2, 8], "int16", scale=0.02, zp=0)
+        b.net.ops.append(netgen.Op("LEAKY_RELU", [x], [z], ("LeakyReluOptions", dict(Alpha=-2.0))))
     else:  # known_quantize_relu
         y = b.quantize(x)
         b.t(y).scales, b.t(y).zps = [0.03], [20]
@@ -1125,7 +1142,7 @@ def _classify_candidate(o, ans, skip):
         if "ofm-batch-above-one-accepted-on-npu" not in skip:
             return "ofm-batch-above-one-accepted-on-npu"
     if not (ans.endswith("verdict=fail") or "read_outside_region" in ans) or o.get("dtype") != "int16":
-        return None
+        return
     consumers = {}
     for kind, ins, outs, faf, pad, stride in g:
         for t in ins:
@@ -1284,6 +1301,9 @@ def main():
         for kd in o.get("out_kinds", []):
             if kd != "NPU":
                 ck.count("cpu_op_" + kd)
+        if any(str(x).startswith("alpha=-") for x in (o["desc"].get("desc") or [])) or o["profile"] == "known_lrelu16_negative_alpha":
+            # LEAKY_RELU with a negative alpha: table lookup (8 bit), MIN / int32 MUL / RELU / ADD or - with repair C16-20 - the CPU (16 bit)
+            ck.count("lrelu_negative_alpha_%s_%s" % (o["dtype"], "cpu" if "LEAKY_RELU" in (o.get("out_kinds") or []) else "npu"))
         classes = re.findall(r"cls=(\d)", ans)
         for c in classes:
             ck.count("output_class_" + {"0": "exact", "1": "within_one", "2": "not_judged"}[c])
